@@ -17,7 +17,7 @@ func init() {
 	register(&Property{
 		ID:        "C43",
 		Patterns:  []string{"./sql/information_schema", "./sql/rowexec"},
-		Technique: "shape reading of sql.Row / sql.Schema builders (composite literals, NewRow, append chains, returns of resolved callees) under flag/type-switch guards, compared column by column; registry table extraction from the map literal; who-may-write over package variables and table fields; required-source tables over the package-local call closure; must-reach-a-return of catalog errors on go/cfg; definite assignment of loop-carried row variables",
+		Technique: "shape reading of sql.Row / sql.Schema builders (composite literals, NewRow, append chains, returns of resolved callees) under flag/type-switch guards, compared column by column; registry table extraction from the map literal; who-may-write over package variables and table fields; required-source tables over the package-local call closure; must-reach-a-return of catalog errors on go/cfg; definite assignment of loop-carried row variables; boolean-equivalence folding of run-scan tests; accumulator cross-append scan",
 		Explanation: "Structural necessary conditions for information_schema and SHOW to reflect the catalog. " +
 			"(L1) layout arity: every output row a table's reader (and its package-local callees) or a SHOW executor (its helpers and the Next method of the iterator it constructs) builds — sql.Row literals, sql.NewRow calls, rows extended by append under a node flag — has exactly as many elements as the sql.Schema the table declares / the plan node's Schema() returns under the same flag or type-switch arm; " +
 			"(L2) layout kinds: where the static Go type of element i is a string, integer, float, bool or time.Time, column i is declared with a SQL type of that kind (string←string, integer←integer, float←float|integer, datetime←time.Time, enum/set←string|integer), so a definition cannot land under the column of another attribute; " +
